@@ -83,7 +83,8 @@ def parse(text):
             return Instr('addcap' if cap else ('addfloor' if floor else 'add'), items=items)
     m = re.search(r'Multiply line ' + LABEL + r' by ([0-9.]+) ?% \((0?\.[0-9]+)\)', t)
     if m:
-        return Instr('rate', a=m.group(1), rate=m.group(3), pct=m.group(2))
+        floor_a_zero = bool(re.search(r'If zero or less, enter a zero', t))
+        return Instr('ratefloor' if (floor or floor_a_zero) else 'rate', a=m.group(1), rate=m.group(3), pct=m.group(2))
     m = re.search(r'Multiply line ' + LABEL + r' by \$([0-9,]+)', t)
     if m:
         return Instr('amount', a=m.group(1), amount=m.group(2).replace(',', ''))
